@@ -81,6 +81,13 @@ class Ctx:
         self.sync_harness()
         out = os.path.join(self.scratch("bin"), (name or pkg) + ("-race" if race else ""))
         cmd = ["go", "build", "-o", out]
+        if REPO != "/repo":
+            # testing the machinery against a scratch worktree (seeded changes): same module, other replace target
+            alt = os.path.join(self.scratch("mod"), "alt.mod")
+            with open(alt, "w") as fh:
+                fh.write(open(os.path.join(HARNESS, "go.mod")).read().replace("=> /repo", "=> " + REPO))
+            shutil.copy(os.path.join(REPO, "go.sum"), alt[:-4] + ".sum")
+            cmd += ["-modfile", alt]
         if tags:
             cmd += ["-tags", tags]
         if race:
@@ -178,6 +185,10 @@ def write_evidence(ctx):
         ev["coverage"]["known_findings_hit"] = [
             {"id": k["id"], "count": k.get("_count", 0)} for k in ctx.known_hits]
     path = os.path.join(VERIF, "evidence", ctx.prop + ".json")
+    if REPO != "/repo":
+        # a run against a scratch worktree (seeded change) must not overwrite the evidence of /repo
+        os.makedirs(os.path.join(OUT, "evidence-scratch"), exist_ok=True)
+        path = os.path.join(OUT, "evidence-scratch", "%s-%s.json" % (ctx.prop, os.path.basename(REPO)))
     tmp = path + ".tmp"
     with open(tmp, "w") as f:
         json.dump(ev, f, indent=1, sort_keys=True)
